@@ -17,6 +17,8 @@ type callCtx struct {
 	site ssa.Instruction
 	ret  func(*State, Value)
 	fn   *ssa.Function
+	// declined: the intrinsic does not apply to these operands; the real function body is executed
+	declined bool
 }
 
 type intrinsic func(e *Engine, st *State, c *callCtx) bool
@@ -143,6 +145,35 @@ func (e *Engine) vpCall(st *State, name string, args []Value, site ssa.Instructi
 		e.sol.Assert(Le(StrLen(t), KInt64(int64(mx))))
 		t.lenHint = &Term{S: "(str.len " + t.S + ")", Sort: SInt, Lo: big0, Hi: big.NewInt(int64(mx))}
 		ret(st, t)
+	case "Chars":
+		// string of exactly n characters over a character set; each character is a symbolic code, so the
+		// string has a concrete shape and library calls on it run structurally (cv.go)
+		label := constStr(args[0], "vp label")
+		set := constStr(args[1], "vp.Chars charset")
+		n := constInt(args[2], "vp.Chars n")
+		in := e.newInput(st, label, "string", "string")
+		t := e.freshVar("in_"+label, SStr)
+		in.Term = t
+		var cs []*Term
+		for i := 0; i < n; i++ {
+			cn := e.fresh(fmt.Sprintf("chr_%s_%d", label, i))
+			e.sol.Declare(cn, SInt)
+			ct := IntVarR(cn, big0, big.NewInt(127))
+			var alts []*Term
+			for j := 0; j < len(set); j++ {
+				if j+2 < len(set) && set[j+1] == '-' {
+					alts = append(alts, And(Le(KInt64(int64(set[j])), stripFacts(ct)), Le(stripFacts(ct), KInt64(int64(set[j+2])))))
+					j += 2
+				} else {
+					alts = append(alts, Eq(stripFacts(ct), KInt64(int64(set[j]))))
+				}
+			}
+			e.sol.Assert(Or(alts...))
+			cs = append(cs, StrFromCode(ct))
+		}
+		v := Concat(cs...)
+		e.sol.Assert(&Term{S: "(= " + t.S + " " + v.S + ")", Sort: SBool})
+		ret(st, v)
 	case "Bytes":
 		label := constStr(args[0], "vp label")
 		mx := constInt(args[1], "vp.Bytes maxLen")
